@@ -504,6 +504,8 @@ int dorewritemod(struct radmsg *msg, struct list *modattrs, struct list *modvatt
     for (n = list_first(msg->attrs); n; n = list_next(n)) {
         struct tlv *attr = (struct tlv *)n->data;
         if (attr->t == RAD_Attr_Vendor_Specific) {
+            if (attr->l < 4)
+                continue;
             memcpy(&vendor, attr->v, 4);
             vendor = ntohl(vendor);
             for (m = list_first(modvattrs); m; m = list_next(m)) {
@@ -548,7 +550,7 @@ int dorewritesupattr(struct radmsg *msg, struct tlv *supattr) {
             exist = 1;
             break;
         } else if (supattr->t == RAD_Attr_Vendor_Specific && attr->t == RAD_Attr_Vendor_Specific &&
-                   memcmp(supattr->v, attr->v, 4) == 0) {
+                   attr->l >= 4 && memcmp(supattr->v, attr->v, 4) == 0) {
             if (!attrvalidate(attr->v + 4, attr->l - 4)) {
                 debug(DBG_INFO, "dorewritesup: vendor attribute validation failed, no rewrite");
                 return 0;
